@@ -66,6 +66,26 @@ class InputFactory:
                 subs = [self.make(sort[1], f'{hint}{k}') for k in range(sort[2])]
                 return SymInput(sort, [s.value for s in subs], lambda m: [s.extract(m) for s in subs],
                                 sum([s.sizes for s in subs], []), sum([s.coords for s in subs], []))
+            if kind == 'fn':
+                return self.make_fn(sort[1], hint, sort[2] if len(sort) > 2 else None)
+            if kind == 'object':
+                subs = {k: self.make(v, f'{hint}_{k}') for k, v in sort[1].items()}
+                from .model import ClassModel
+                inst = Instance(ClassModel('namespace', [], {}, None), {k: s.value for k, s in subs.items()})
+                return SymInput(sort, inst, lambda m: {'object': {k: s.extract(m) for k, s in subs.items()}},
+                                sum([s.sizes for s in subs.values()], []), sum([s.coords for s in subs.values()], []))
+            if kind == 'new':
+                # ('new', 'mod:Class', [arg sorts], {kw sorts}): instance built by the real constructor
+                cls = self.resolve(sort[1])
+                subs = [self.make(x, f'{hint}_a{i}') for i, x in enumerate(sort[2])]
+                ksubs = {k: self.make(v, f'{hint}_{k}') for k, v in (sort[3] if len(sort) > 3 else {}).items()}
+                inst = I.instantiate(cls, [x.value for x in subs], {k: x.value for k, x in ksubs.items()})
+                si = SymInput(sort, inst, lambda m: {'new': sort[1], 'args': [x.extract(m) for x in subs],
+                                                     'kwargs': {k: x.extract(m) for k, x in ksubs.items()}},
+                              sum([x.sizes for x in subs + list(ksubs.values())], []),
+                              sum([x.coords for x in subs + list(ksubs.values())], []))
+                si.parts = {'args': subs, 'kwargs': ksubs}
+                return si
             if kind == 'opt':
                 raise Unsupported('optional sort')
         if sort == 'int':
@@ -158,6 +178,29 @@ class InputFactory:
         if sort == 'VisFn':
             return self.make_visfn(hint)
         raise Unsupported(f'input sort {sort}')
+
+    def resolve(self, target):
+        mod, qual = target.split(':')
+        obj = self.I.load_module(mod)
+        for part in qual.split('.'):
+            obj = self.I.getattr_(obj, part)
+        return obj
+
+    def make_fn(self, ret_sort, hint, mutates=None):
+        """uninterpreted callable: records its calls, returns an arbitrary value of ret_sort"""
+        I = self.I
+        calls = []
+        def handler(I_, f, args, kwargs):
+            k = len(calls)
+            r = self.make(ret_sort, f'{hint}_r{k}')
+            calls.append({'args': list(args), 'kwargs': dict(kwargs), 'result': r.value, 'si': r})
+            return r.value
+        fn = SymCallable(hint, handler)
+        fn.calls = calls
+        def ex(m):
+            return {'fn': [c['si'].extract(m) for c in calls], 'ret': ret_sort if isinstance(ret_sort, str) else list(ret_sort)}
+        si = SymInput(('fn', ret_sort), fn, ex)
+        return si
 
     def make_visfn(self, hint):
         """uninterpreted visibility callable: any boolean array of any shape; protocol
